@@ -338,7 +338,8 @@ def hull_hrep(P, tol=1e-9):
             nu, o = -nu, -o
         else:
             continue
-        if any(np.linalg.norm(nu - q) < 1e-9 and abs(o - oo) < 1e-9 * scale for q, oo in zip(normals, offs)):
+        # the same facet found from another (possibly tiny, ill-conditioned) point subset: its normal agrees only to ~1e-8
+        if any(np.linalg.norm(nu - q) < 1e-6 and abs(o - oo) < 1e-6 * scale for q, oo in zip(normals, offs)):
             continue
         normals.append(nu)
         offs.append(o)
